@@ -186,6 +186,13 @@ def _protocol(ctx, g, x, root, fl, view):
                 okr = bool(recheck_eq) and all(R not in x.reach_from(i, blocked=recheck_eq | dec_n | (inc_n - {i})) for i in inc_n)
                 ctx.add('P3b', 'T-DOM', fn, okr, 'after pinning, the position is re-checked before the payload is read' if okr else
                         'payload read reachable from the pin without re-checking the stream position', flavour=fl, where=where, sub=sub + '|recheck')
+                # a retry looks at the stream again: the pin cannot be reached a second time without a new observation of
+                # the position that indexes the slot (a failed re-check followed by `continue` without reloading the
+                # attempt pins and fails the same stale slot for ever)
+                okl = all(i not in x.reach_from(i, blocked=IDX | (inc_n - {i})) for i in inc_n)
+                ctx.add('P3b', 'T-LOOP', fn, okl, 'every retry of the pinned path re-observes the stream position' if okl else
+                        'the shared receive path can come back to the pin without having observed the stream position again: after a failed re-check it retries the same stale slot for ever (the try operation never returns)',
+                        flavour=fl, where=where, sub=sub + '|retry-reobserves')
                 # unpin after the read: a path from pin to unpin passes the read or the re-check-failed edge
                 # (any payload read of this root: the single-consumer path may have a read site of its own that no pinned
                 # path passes; that one is not reachable from a pin at all)
